@@ -8,6 +8,8 @@ Line-protocol driver for the C02 interleaving model (Model/VersionSet.lean).
   findfail <r> <k> <f>   snapshot.FindReaders(k) while the open of table f fails once (injected fault)
   load <r> <k>           snapshot.Load(k)
   close <r>              snapshot.Close() up to the yield after ref.Dec
+  close2 <r>             a second Close() on the same snapshot object (overlapping or after the first)
+  parget <r1> <r2> <f>   both snapshots call GetReader(f) at the same time (f not mapped)
   run r<r> | run j<j> [+j<k> ..]   continue a closing reader / a job up to its next park point
                          (`at=blocked`: its next step needs the version-set mutex / compacting flag);
                          +j<k>: jobs that were blocked and were released by this step, run next
@@ -34,7 +36,9 @@ structure D where
 
 def codeCfg0 : Cfg :=
   { recheck := Generated.C02.removeVersionRechecksRef, cloneLocked := Generated.C02.commitCloneUnderLock,
-    allocLocked := Generated.C02.allocUnderCommitLock, findErrReleases := Generated.C02.findErrReleases }
+    allocLocked := Generated.C02.allocUnderCommitLock, findErrReleases := Generated.C02.findErrReleases,
+    pendFirst := Generated.C02.pendBeforeCreate, closeCAS := Generated.C02.closeIsCAS,
+    getReaderAtomic := Generated.C02.getReaderOneSection }
 
 def D.empty : D := { cfg := codeCfg0, st := St.init 0 0, readers := [], ok := false }
 
@@ -60,7 +64,12 @@ def pcName : Pc → String
   | .cRemoved => "cRemoved" | .cReleased => "cReleased" | .cUnlocked => "cUnlocked"
   | .closeOwn => "closeOwn" | .oDecd => "oDecd" | .oRemoved => "oRemoved" | .doStart => "doStart"
   | .doListed => "doListed" | .doPended => "doPended" | .doActived => "doActived" | .doRolled => "doRolled"
-  | .doEvicted => "doEvicted" | .doRemoved => "doRemoved" | .done => "done"
+  | .doEvicted => "doEvicted" | .doRemoved => "doRemoved" | .done => "done" | .createdU => "createdU"
+
+/-- park points including the one after the table file was created (`ready` of a merging
+compaction, `createdU` in the create-first variant) -/
+def parkAt (b : Job) : Bool :=
+  isPark b.kind b.pc || (b.kind == .compact && b.pc == .ready && !b.trivial) || b.pc == .createdU
 
 /-- run job j until it parks (fuel-bounded) or its next step is not enabled (blocked on the
 version-set mutex / the compacting flag). The flag says whether the job ended at a park point it
@@ -70,7 +79,7 @@ def runJob (cfg : Cfg) (s : St) (j : Nat) : Nat → St × Bool
   | fuel + 1 =>
     match step cfg s (.jstep j) with
     | none => (s, false)
-    | some s' => if isPark (s'.job j).kind (s'.job j).pc then (s', true) else runJob cfg s' j fuel
+    | some s' => if parkAt (s'.job j) then (s', true) else runJob cfg s' j fuel
 
 /-- where a job stands after `runJob`: a park point, or blocked -/
 def atName (r : St × Bool) (j : Nat) : String :=
@@ -117,7 +126,8 @@ def step' (d : D) (ws : List String) : D × String :=
     | some [v0, f0, th, ro] =>
       answer { cfg := { recheck := Generated.C02.removeVersionRechecksRef, cloneLocked := Generated.C02.commitCloneUnderLock,
                         allocLocked := Generated.C02.allocUnderCommitLock, findErrReleases := Generated.C02.findErrReleases,
-                        threshold := th, rollupOn := ro == 1 },
+                        pendFirst := Generated.C02.pendBeforeCreate, closeCAS := Generated.C02.closeIsCAS,
+                        getReaderAtomic := Generated.C02.getReaderOneSection, threshold := th, rollupOn := ro == 1 },
                st := St.init v0 f0, readers := [], ok := true } "ok"
     | some [v0, f0, th, ro, rc, cl, al] =>
       answer { cfg := { recheck := rc == 1, cloneLocked := cl == 1, allocLocked := al == 1, threshold := th, rollupOn := ro == 1 },
@@ -169,6 +179,33 @@ def step' (d : D) (ws : List String) : D × String :=
                 (step d.cfg s1 (.findErrRelease i before)).getD s1 else s1
             answer { d with st := s2 } "err"
           else (d, "bad-op")
+    | _, _, _ => (d, "bad-op")
+  | ["close2", r] =>
+    -- a second Close() on the same snapshot while / after the first: a no-op with the CAS guard
+    match r.toNat? with
+    | some r =>
+      match sidOf d r with
+      | some i =>
+        if d.cfg.closeCAS then answer d "at=noop"
+        else match step d.cfg d.st (.sDec2 i) with
+          | some s' => answer { d with st := s' } "at=decd"
+          | none => answer d "at=noop"
+      | none => (d, "bad-op")
+    | none => (d, "bad-op")
+  | ["parget", r1, r2, f] =>
+    match r1.toNat?, r2.toNat?, f.toNat? with
+    | some r1, some r2, some f =>
+      match sidOf d r1, sidOf d r2 with
+      | some i1, some i2 =>
+        let ok1 := getReaderOk d.st f
+        match step d.cfg d.st (.getReader i1 f) with
+        | some s1 =>
+          let ok2 := getReaderOk s1 f
+          match step d.cfg s1 (.getReader i2 f) with
+          | some s2 => answer { d with st := s2 } ((if ok1 then "ok" else "err") ++ " " ++ (if ok2 then "ok" else "err"))
+          | none => (d, "bad-op")
+        | none => (d, "bad-op")
+      | _, _ => (d, "bad-op")
     | _, _, _ => (d, "bad-op")
   | ["close", r] =>
     match r.toNat? with
